@@ -16,6 +16,13 @@
    of the differential run decides the property step by step on the screens observed before
    and after each call (C11_sequence_predicate_sound).
 
+   Measuring: the capability-dependent choice between the segmenter's widths and
+   Vaxis.characterWidth is the pair (remeasure, measure), universally quantified everywhere
+   (the differential run uses all eight settings unicodeCore x explicitWidth x noZWJ).  The
+   width of a line segment in Wrap is the sum over the EXPANDED characters (a tab = eight
+   blanks): C11_wrap_total_expanded; the per-cluster fit does not depend on it:
+   C11_wrap_segment_fits_any_start.
+
    Not covered here: the rendering of screenNext to the terminal (C01).  On the level of
    glyphs (a wide cluster covers more than its cell) C11_text_no_overhang covers the text
    helpers on windows made by Vaxis.Window/New; for Window literals that are larger than
@@ -204,6 +211,36 @@ Proof.
   - intros p Hp; eapply wrap_places_fits; exact Hp.
 Qed.
 Print Assumptions C11_wrap_layout.
+
+(* Measuring a line segment.  Inside one line segment the no-overhang guarantee depends
+   neither on the column/row at which the segment starts nor on the value Wrap computed for
+   the width of the whole segment (which only chooses that start): from ANY start, every
+   cluster placed fits in the rest of its row or is at most one column wide.  So no way of
+   measuring the segment (per cluster, by string width, under any capability setting) may
+   switch the per-cluster test off. *)
+Theorem C11_wrap_segment_fits_any_start :
+  forall (trailing : text -> bool) (cols : Z) (chars : list character) (st col row : Z) (p : placement),
+  In p (fst (wrap_chars_places trailing cols chars st col row)) -> fits_in cols p.
+Proof. exact wrap_chars_places_fits. Qed.
+Print Assumptions C11_wrap_segment_fits_any_start.
+
+(* ... and the segment width Wrap compares with the window width is the sum over the
+   characters the clusters EXPAND to, each measured by the method in force (remeasure =
+   !unicodeCore || !explicitWidth; measure = characterWidth, which depends on the noZWJ
+   quirk): a tab contributes eight blanks whatever width the segmenter reported for it. *)
+Theorem C11_wrap_total_expanded :
+  forall (measure : text -> Z) (remeasure : bool) (cls : list (text * Z)),
+  zsum (map wd (map (measured measure remeasure) (characters cls))) =
+  zsum (map (cluster_total measure remeasure) cls).
+Proof. exact wrap_total_expanded. Qed.
+Print Assumptions C11_wrap_total_expanded.
+
+(* with both capabilities (no re-measuring) a tab adds exactly 8 to the segment width *)
+Theorem C11_wrap_total_tab : forall (measure : text -> Z) (w : Z) (cls : list (text * Z)),
+  zsum (map wd (map (measured measure false) (characters (([9], w) :: cls)))) =
+  8 + zsum (map wd (map (measured measure false) (characters cls))).
+Proof. exact wrap_total_tab. Qed.
+Print Assumptions C11_wrap_total_tab.
 
 (* Characters never splits or merges clusters: every character is a whole cluster with the
    width the segmenter reported, or one of the spaces that replace a tab *)
@@ -430,4 +467,24 @@ Example C11_example_sequence :
                 [st1; (win2, OSetCell 0 0 (mkCell [120] 1 5), mkObs 0 [mkFrame 3 0 3 1; mkFrame 0 0 6 1] (3, 0) d (0, 0))] in
   scase_agrees (mk good) = true /\ scase_holds (mk good) = true /\
   scase_agrees (mk bad) = false /\ scase_core_holds (mk bad) = false.
+Proof. vm_compute. repeat split; reflexivity. Qed.
+
+
+(* a tab whose eight blanks end in the last column of a 3-column window, followed by a wide
+   closing punctuation mark (no line break allowed before it, so both are ONE line segment of
+   width 10 > 3): the model starts a new row for the wide cluster; under every measuring
+   method the observation "wide cluster in column 2" is rejected by the predicate *)
+Example C11_example_tab_run :
+  let bg := mkCell [46] 1 99 in
+  let sp := mkCell [32] 1 3 in
+  let blanks := [(0, 0, sp); (1, 0, sp); (2, 0, sp); (0, 1, sp); (1, 1, sp); (2, 1, sp); (0, 2, sp); (1, 2, sp)] in
+  let mk rem d ret := mkCase 6 4 bg (None, [(true, (0, 0, 3, -1))]) rem [([32], (1, false)); ([12290], (2, false))]
+                (OWrap [([([9], 0); ([12290], 2)], 3)])
+                (mkObs 0 [mkFrame 0 0 3 4; mkFrame 0 0 6 4] (0, 0) d ret) in
+  let good := blanks ++ [(0, 3, mkCell [12290] 2 3)] in
+  let bad := blanks ++ [(2, 2, mkCell [12290] 2 3)] in
+  case_agrees (mk false good (2, 3)) = true /\ case_holds (mk false good (2, 3)) = true /\
+  case_agrees (mk true good (2, 3)) = true /\ case_holds (mk true good (2, 3)) = true /\
+  case_agrees (mk false bad (0, 3)) = false /\ case_holds (mk false bad (0, 3)) = false /\
+  case_holds (mk true bad (0, 3)) = false.
 Proof. vm_compute. repeat split; reflexivity. Qed.
